@@ -347,7 +347,7 @@ Fixpoint tok (t : tjson) : Prop :=
   | _ => True
   end.
 
-Definition twf (t : tjson) : Prop := tok t /\ tdepth t <= max_depth.
+Definition twf (t : tjson) : Prop := tok t /\ Json.tdepth t <= max_depth.
 
 Lemma tok_arr l : tok (TArr l) <-> Forall tok l.
 Proof.
@@ -373,7 +373,7 @@ Fixpoint tokb (t : tjson) : bool :=
   | _ => true
   end.
 
-Definition twfb (t : tjson) : bool := tokb t && (tdepth t <=? max_depth).
+Definition twfb (t : tjson) : bool := tokb t && (Json.tdepth t <=? max_depth).
 
 Lemma tokb_iff t : tokb t = true <-> tok t.
 Proof.
@@ -404,14 +404,14 @@ Proof.
     + intro H. inversion H as [|? ? Ha Hb]; subst. apply IH in Hb. lia.
 Qed.
 
-Lemma tdepth_arr_le l d : tdepth (TArr l) <= d <-> (d =? 0) = false /\ Forall (fun v => tdepth v <= d - 1) l.
+Lemma tdepth_arr_le l d : Json.tdepth (TArr l) <= d <-> (d =? 0) = false /\ Forall (fun v => Json.tdepth v <= d - 1) l.
 Proof.
-  cbn [tdepth]. rewrite <- (fold_max_le tdepth), N.eqb_neq. lia.
+  cbn [Json.tdepth]. rewrite <- (fold_max_le Json.tdepth), N.eqb_neq. lia.
 Qed.
 
-Lemma tdepth_obj_le ms d : tdepth (TObj ms) <= d <-> (d =? 0) = false /\ Forall (fun kv => tdepth (snd kv) <= d - 1) ms.
+Lemma tdepth_obj_le ms d : Json.tdepth (TObj ms) <= d <-> (d =? 0) = false /\ Forall (fun kv => Json.tdepth (snd kv) <= d - 1) ms.
 Proof.
-  cbn [tdepth]. rewrite <- (fold_max_le (fun kv : bytes * tjson => tdepth (snd kv))), N.eqb_neq. lia.
+  cbn [Json.tdepth]. rewrite <- (fold_max_le (fun kv : bytes * tjson => Json.tdepth (snd kv))), N.eqb_neq. lia.
 Qed.
 
 (* ================= one-step unfoldings of the reader ================= *)
@@ -537,7 +537,7 @@ Definition fl (f : nat) (s : bytes) : Prop := (2 * length s + 2 <= f)%nat.
 
 (* txt is read as the value v, whatever follows (as long as it does not continue a number) *)
 Definition reads (txt : bytes) (v : tjson) : Prop :=
-  forall f d rest, tdepth v <= d -> hd_ok num_term rest -> fv f (txt ++ rest) ->
+  forall f d rest, Json.tdepth v <= d -> hd_ok num_term rest -> fv f (txt ++ rest) ->
     parse_value f d (txt ++ rest) = Some (v, rest).
 
 Ltac lens := unfold fv, fl in *; repeat (progress (rewrite ?app_length in *; cbn [length] in * )); lia.
@@ -548,7 +548,7 @@ Proof. reflexivity. Qed.
 (* elements: texts separated by comma + white space, then white space and the closing bracket *)
 Lemma elems_read (txt : tjson -> bytes) sepw endw : wsb sepw = true -> wsb endw = true ->
   forall l, l <> [] -> Forall (fun v => reads (txt v) v) l ->
-  forall f d rest, Forall (fun v => tdepth v <= d) l ->
+  forall f d rest, Forall (fun v => Json.tdepth v <= d) l ->
     fl f (sep_concat (x2c :: sepw) (map txt l) ++ endw ++ x5d :: rest) ->
     parse_elems f d (sep_concat (x2c :: sepw) (map txt l) ++ endw ++ x5d :: rest) = Some (l, rest).
 Proof.
@@ -592,7 +592,7 @@ Definition member_text (txt : tjson -> bytes) (colw : bytes) (kv : bytes * tjson
 
 Lemma members_read (txt : tjson -> bytes) colw sepw endw : wsb colw = true -> wsb sepw = true -> wsb endw = true ->
   forall ms, ms <> [] -> Forall (fun kv => body_ok (fst kv) /\ reads (txt (snd kv)) (snd kv)) ms ->
-  forall f d rest, Forall (fun kv => tdepth (snd kv) <= d) ms ->
+  forall f d rest, Forall (fun kv => Json.tdepth (snd kv) <= d) ms ->
     fl f (sep_concat (x2c :: sepw) (map (member_text txt colw) ms) ++ endw ++ x7d :: rest) ->
     parse_members f d (sep_concat (x2c :: sepw) (map (member_text txt colw) ms) ++ endw ++ x7d :: rest) = Some (ms, rest).
 Proof.
@@ -698,7 +698,7 @@ Proof.
 Qed.
 
 (* a whole text: white space, the text of the value, white space *)
-Lemma parse_of_reads txt t w1 w2 : reads txt t -> tdepth t <= max_depth -> wsb w1 = true -> wsb w2 = true ->
+Lemma parse_of_reads txt t w1 w2 : reads txt t -> Json.tdepth t <= max_depth -> wsb w1 = true -> wsb w2 = true ->
   parse (w1 ++ txt ++ w2) = Some t.
 Proof.
   intros R D W1 W2. unfold parse. rewrite pv_skip by assumption. rewrite (R _ max_depth w2 D).
@@ -732,9 +732,31 @@ Proof. destruct e; try discriminate; reflexivity. Qed.
 Lemma hex_nosp a : is_hex a = true -> he_sp a = false.
 Proof. destruct a; try discriminate; reflexivity. Qed.
 
+Lemma he_e2 r : html_escape (xe2 :: r) =
+  match r with
+  | x80 :: xa8 :: r' => x5c :: x75 :: x32 :: x30 :: x32 :: x38 :: html_escape r'
+  | x80 :: xa9 :: r' => x5c :: x75 :: x32 :: x30 :: x32 :: x39 :: html_escape r'
+  | _ => xe2 :: html_escape r
+  end.
+Proof. reflexivity. Qed.
+
+Lemma he_lt r : html_escape (x3c :: r) = x5c :: x75 :: x30 :: x30 :: x33 :: x63 :: html_escape r.
+Proof. reflexivity. Qed.
+Lemma he_gt r : html_escape (x3e :: r) = x5c :: x75 :: x30 :: x30 :: x33 :: x65 :: html_escape r.
+Proof. reflexivity. Qed.
+Lemma he_amp r : html_escape (x26 :: r) = x5c :: x75 :: x30 :: x30 :: x32 :: x36 :: html_escape r.
+Proof. reflexivity. Qed.
+
 Lemma he_e2_other c1 c2 r : Byte.eqb c1 x80 && (Byte.eqb c2 xa8 || Byte.eqb c2 xa9) = false ->
   html_escape (xe2 :: c1 :: c2 :: r) = xe2 :: html_escape (c1 :: c2 :: r).
-Proof. intro E. destruct c1; try reflexivity. destruct c2; try reflexivity; discriminate E. Qed.
+Proof.
+  intro E. rewrite he_e2. destruct (Byte.eqb c1 x80) eqn:E1.
+  - apply Byte.byte_dec_bl in E1. subst c1. cbn [andb] in E. destruct c2; try discriminate E; reflexivity.
+  - clear E. destruct c1; try discriminate E1; reflexivity.
+Qed.
+
+Lemma he_e2_short c1 : html_escape [xe2; c1] = xe2 :: html_escape [c1].
+Proof. rewrite he_e2. destruct c1; reflexivity. Qed.
 
 (* escaping keeps a body well-formed *)
 Theorem html_escape_body_ok b : body_ok b -> body_ok (html_escape b).
@@ -742,25 +764,27 @@ Proof.
   induction 1 as [|e r He _ IH|a b c d r Hh _ IH|c r Q Bs Ct Hr IH]; [constructor| | |].
   - rewrite (he_nosp x5c) by reflexivity. rewrite he_nosp by (apply esc1_nosp, He). now apply BO_esc.
   - unfold hex4b in Hh. apply andb_prop in Hh as [Hh Hd]. apply andb_prop in Hh as [Hh Hc]. apply andb_prop in Hh as [Ha Hb].
-    rewrite (he_nosp x5c), (he_nosp x75) by reflexivity. rewrite !he_nosp by (apply hex_nosp; assumption).
+    rewrite (he_nosp x5c), (he_nosp x75) by reflexivity.
+    rewrite (he_nosp a), (he_nosp b), (he_nosp c), (he_nosp d) by (apply hex_nosp; assumption).
     apply BO_u; [|exact IH]. unfold hex4b. now rewrite Ha, Hb, Hc, Hd.
   - destruct (he_sp c) eqn:Sp; [|rewrite he_nosp by assumption; now apply BO_plain].
-    apply he_sp_cases in Sp as [->|[->|[->|->]]].
-    + change (body_ok (x5c :: x75 :: x30 :: x30 :: x33 :: x63 :: html_escape r)). now apply BO_u.
-    + change (body_ok (x5c :: x75 :: x30 :: x30 :: x33 :: x65 :: html_escape r)). now apply BO_u.
-    + change (body_ok (x5c :: x75 :: x30 :: x30 :: x32 :: x36 :: html_escape r)). now apply BO_u.
+    apply he_sp_cases in Sp as [-> | [-> | [-> | ->]]].
+    + rewrite he_lt. now apply BO_u.
+    + rewrite he_gt. now apply BO_u.
+    + rewrite he_amp. now apply BO_u.
     + destruct r as [|c1 [|c2 r']].
-      * apply BO_plain; try reflexivity. constructor.
-      * replace (html_escape [xe2; c1]) with (xe2 :: html_escape [c1]) by (destruct c1; reflexivity).
-        now apply BO_plain.
+      * rewrite he_e2. apply BO_plain; try reflexivity. constructor.
+      * rewrite he_e2_short. now apply BO_plain.
       * destruct (Byte.eqb c1 x80 && (Byte.eqb c2 xa8 || Byte.eqb c2 xa9)) eqn:E;
           [|rewrite he_e2_other by assumption; now apply BO_plain].
         apply andb_prop in E as [E1 E2]. apply Byte.byte_dec_bl in E1. subst c1. apply body_ok_okb in IH.
         apply orb_prop in E2 as [E2|E2]; apply Byte.byte_dec_bl in E2; subst c2.
-        { change (body_okb (html_escape r') = true) in IH. apply body_okb_iff in IH.
-          change (body_ok (x5c :: x75 :: x32 :: x30 :: x32 :: x38 :: html_escape r')). now apply BO_u. }
-        { change (body_okb (html_escape r') = true) in IH. apply body_okb_iff in IH.
-          change (body_ok (x5c :: x75 :: x32 :: x30 :: x32 :: x39 :: html_escape r')). now apply BO_u. }
+        { rewrite (he_nosp x80), (he_nosp xa8) in IH by reflexivity.
+          change (body_okb (html_escape r') = true) in IH. apply body_okb_iff in IH.
+          rewrite he_e2. now apply BO_u. }
+        { rewrite (he_nosp x80), (he_nosp xa9) in IH by reflexivity.
+          change (body_okb (html_escape r') = true) in IH. apply body_okb_iff in IH.
+          rewrite he_e2. now apply BO_u. }
 Qed.
 
 (* the escaped text of t is the plain text of the escaped tree *)
@@ -784,12 +808,12 @@ Proof.
     split; [apply html_escape_body_ok, T1 | apply (IH x Hx), T2].
 Qed.
 
-Lemma tdepth_escape t : tdepth (escape_tree true t) = tdepth t.
+Lemma tdepth_escape t : Json.tdepth (escape_tree true t) = Json.tdepth t.
 Proof.
   induction t as [| | |lit|b|l IH|ms IH] using tjson_rect'; try reflexivity.
-  - rewrite escape_tree_true. cbn [tdepth]. f_equal. induction IH as [|x l Hx _ IHl]; [reflexivity|].
+  - rewrite escape_tree_true. cbn [Json.tdepth]. f_equal. induction IH as [|x l Hx _ IHl]; [reflexivity|].
     cbn [map fold_right]. now rewrite Hx, IHl.
-  - rewrite escape_tree_true. cbn [tdepth]. f_equal. induction IH as [|x l Hx _ IHl]; [reflexivity|].
+  - rewrite escape_tree_true. cbn [Json.tdepth]. f_equal. induction IH as [|x l Hx _ IHl]; [reflexivity|].
     cbn [map fold_right fst snd]. now rewrite Hx, IHl.
 Qed.
 
@@ -842,3 +866,177 @@ Proof.
   - intro H. apply (scan_string_inv (length s) s b rest (le_n _)) in H as [H1 H2]. split; [now apply body_ok_sbody | exact H2].
   - intros [H1 ->]. apply scan_string_body, body_ok_sbody, H1.
 Qed.
+
+(* ================= every tree the reader produces is well-formed ================= *)
+Lemma parse_value_wf : forall fuel,
+  (forall d s t rest, parse_value fuel d s = Some (t, rest) -> tok t /\ Json.tdepth t <= d) /\
+  (forall d s l rest, parse_elems fuel d s = Some (l, rest) -> Forall (fun t => tok t /\ Json.tdepth t <= d) l) /\
+  (forall d s ms rest, parse_members fuel d s = Some (ms, rest) ->
+     Forall (fun kv => body_ok (fst kv) /\ tok (snd kv) /\ Json.tdepth (snd kv) <= d) ms).
+Proof.
+  induction fuel as [|f [IHv [IHe IHm]]]; [repeat split; intros; discriminate|].
+  split; [|split].
+  - intros d s t rest H. cbn [parse_value] in H. destruct (skip_ws s) as [|c r]; [discriminate|].
+    assert (Hn : forall x, match scan_number x with Some (lit, rest0) => Some (TNum lit, rest0) | None => None end = Some (t, rest) ->
+                 tok t /\ Json.tdepth t <= d).
+    { intros x E. destruct (scan_number x) as [[lit r0]|] eqn:Sn; [|discriminate]. inversion E; subst.
+      apply scan_number_inv in Sn as [Sn _]. split; [exact Sn | cbn; lia]. }
+    assert (Hp : forall pat v, tok v /\ Json.tdepth v <= d ->
+                 match strip_prefix pat r with Some rest0 => Some (v, rest0) | None => None end = Some (t, rest) -> tok t /\ Json.tdepth t <= d).
+    { intros pat v Hv E. destruct (strip_prefix pat r); [|discriminate]. inversion E; subst. exact Hv. }
+    assert (Ha : match parse_elems f (d - 1) r with Some (l, rest0) => Some (TArr l, rest0) | None => None end = Some (t, rest) ->
+                 (d =? 0) = false -> tok t /\ Json.tdepth t <= d).
+    { intros E Z. destruct (parse_elems f (d - 1) r) as [[l r0]|] eqn:Pe; [|discriminate]. inversion E; subst.
+      apply IHe in Pe. split.
+      - apply tok_arr. revert Pe. apply Forall_impl. tauto.
+      - apply tdepth_arr_le. split; [exact Z|]. revert Pe. apply Forall_impl. tauto. }
+    assert (Ho : match parse_members f (d - 1) r with Some (l, rest0) => Some (TObj l, rest0) | None => None end = Some (t, rest) ->
+                 (d =? 0) = false -> tok t /\ Json.tdepth t <= d).
+    { intros E Z. destruct (parse_members f (d - 1) r) as [[l r0]|] eqn:Pe; [|discriminate]. inversion E; subst.
+      apply IHm in Pe. split.
+      - apply tok_obj. revert Pe. apply Forall_impl. tauto.
+      - apply tdepth_obj_le. split; [exact Z|]. revert Pe. apply Forall_impl. tauto. }
+    destruct c; cbv beta iota in H; try (match type of H with context [scan_number ?x] => exact (Hn x H) end).
+    + (* quote *) destruct (scan_string r) as [[b r0]|] eqn:Ss; [|discriminate]. inversion H; subst.
+      apply (scan_string_inv _ _ _ _ (le_n _)) in Ss as [Ss _]. split; [exact Ss | cbn; lia].
+    + (* [ *) destruct (d =? 0) eqn:Z; [discriminate|]. destruct (skip_ws r) as [|c' r'] eqn:Es; [exact (Ha H eq_refl)|].
+      destruct c'; try (exact (Ha H eq_refl)). inversion H; subst. split; [exact I|]. apply tdepth_arr_le. split; [exact Z | constructor].
+    + (* f *) apply (Hp (B "alse") TFalse); [split; [exact I | cbn; lia] | exact H].
+    + (* n *) apply (Hp (B "ull") TNull); [split; [exact I | cbn; lia] | exact H].
+    + (* t *) apply (Hp (B "rue") TTrue); [split; [exact I | cbn; lia] | exact H].
+    + (* { *) destruct (d =? 0) eqn:Z; [discriminate|]. destruct (skip_ws r) as [|c' r'] eqn:Es; [exact (Ho H eq_refl)|].
+      destruct c'; try (exact (Ho H eq_refl)). inversion H; subst. split; [exact I|]. apply tdepth_obj_le. split; [exact Z | constructor].
+  - intros d s l rest H. rewrite pe_S in H. destruct (parse_value f d s) as [[v rest0]|] eqn:Ev; [|discriminate].
+    apply IHv in Ev. destruct (skip_ws rest0) as [|c r]; [discriminate|]. destruct c; try discriminate.
+    + destruct (parse_elems f d r) as [[l' rest']|] eqn:Ee; [|discriminate]. inversion H; subst.
+      constructor; [exact Ev | exact (IHe _ _ _ _ Ee)].
+    + inversion H; subst. constructor; [exact Ev | constructor].
+  - intros d s ms rest H. rewrite pm_S in H. destruct (skip_ws s) as [|c r]; [discriminate|].
+    destruct c; try discriminate. destruct (scan_string r) as [[k rest0]|] eqn:Ss; [|discriminate].
+    apply (scan_string_inv _ _ _ _ (le_n _)) in Ss as [Ss _].
+    destruct (skip_ws rest0) as [|c1 r1]; [discriminate|]. destruct c1; try discriminate.
+    destruct (parse_value f d r1) as [[v rest1]|] eqn:Ev; [|discriminate]. apply IHv in Ev.
+    destruct (skip_ws rest1) as [|c2 r2]; [discriminate|]. destruct c2; try discriminate.
+    + destruct (parse_members f d r2) as [[ms' rest']|] eqn:Em; [|discriminate]. inversion H; subst.
+      constructor; [split; [exact Ss | exact Ev] | exact (IHm _ _ _ _ Em)].
+    + inversion H; subst. constructor; [split; [exact Ss | exact Ev] | constructor].
+Qed.
+
+Theorem parse_twf bs t : parse bs = Some t -> twf t.
+Proof.
+  unfold parse. destruct (parse_value (parse_fuel bs) max_depth bs) as [[t' rest]|] eqn:E; [|discriminate].
+  destruct (skip_ws rest); [|discriminate]. intro H. inversion H; subst.
+  exact (proj1 (parse_value_wf _) _ _ _ _ E).
+Qed.
+
+(* re-serialising a document that was read gives a text that reads as the same tree *)
+Corollary parse_print_parse bs t : parse bs = Some t -> parse (print false t) = Some t.
+Proof. intro H. apply parse_print, (parse_twf bs), H. Qed.
+
+Corollary parse_print_parse_esc bs t : parse bs = Some t ->
+  exists t', parse (print true t) = Some t' /\ den t' = den t.
+Proof. intro H. apply parse_print_den, (parse_twf bs), H. Qed.
+
+(* ================= the indenting printer ================= *)
+Lemma wsb_app a b : wsb (a ++ b) = wsb a && wsb b.
+Proof. apply forallb_app. Qed.
+
+Lemma wsb_rep ind k : wsb ind = true -> wsb (rep k ind) = true.
+Proof. intro W. induction k as [|k IH]; [reflexivity|]. cbn [rep]. now rewrite wsb_app, W, IH. Qed.
+
+Lemma wsb_nl ind k : wsb ind = true -> wsb (nl ind k) = true.
+Proof. intro W. unfold nl. cbn [wsb forallb is_ws]. apply (wsb_rep ind k W). Qed.
+
+Theorem pp_reads ind t : wsb ind = true -> forall k, tok t -> reads (pp false ind k t) t.
+Proof.
+  intro W. induction t as [| | |lit|b|l IH|ms IH] using tjson_rect'; intros k T.
+  - apply reads_null.
+  - apply reads_true.
+  - apply reads_false.
+  - apply reads_num, T.
+  - apply (reads_str false b), T.
+  - destruct l as [|v l]; [apply reads_empty_arr|]. apply tok_arr in T.
+    apply (reads_arr (pp false ind (S k)) (nl ind (S k)) (nl ind k) (v :: l)); try (apply wsb_nl, W); [congruence|].
+    rewrite Forall_forall in *. intros x Hx. apply (IH x Hx), T, Hx.
+  - destruct ms as [|kv ms]; [apply reads_empty_obj|]. apply tok_obj in T.
+    apply (reads_obj (pp false ind (S k)) [x20] (nl ind (S k)) (nl ind k) (kv :: ms)); try (apply wsb_nl, W); [reflexivity | congruence |].
+    rewrite Forall_forall in *. intros x Hx. destruct (T x Hx) as [T1 T2]. split; [exact T1 | apply (IH x Hx), T2].
+Qed.
+
+(* an indented text (indentation made of white space) reads back as the same tree *)
+Theorem parse_pp ind k t : wsb ind = true -> twf t -> parse (pp false ind k t) = Some t.
+Proof.
+  intros W [T D]. pose proof (parse_of_reads _ t [] [] (pp_reads ind t W k T) D eq_refl eq_refl) as P.
+  now rewrite app_nil_r in P.
+Qed.
+
+Lemma pp_true ind t : forall k, pp true ind k t = pp false ind k (escape_tree true t).
+Proof.
+  induction t as [| | |lit|b|l IH|ms IH] using tjson_rect'; intro k; try reflexivity.
+  - rewrite escape_tree_true. destruct l as [|v l]; [reflexivity|]. cbn [map pp]. do 4 f_equal.
+    change (pp true ind (S k) v :: map (pp true ind (S k)) l) with (map (pp true ind (S k)) (v :: l)).
+    change (pp false ind (S k) (escape_tree true v) :: map (pp false ind (S k)) (map (escape_tree true) l))
+      with (map (pp false ind (S k)) (map (escape_tree true) (v :: l))).
+    rewrite map_map. apply map_ext_in. intros x Hx. rewrite Forall_forall in IH. apply (IH x Hx).
+  - rewrite escape_tree_true. destruct ms as [|kv ms]; [reflexivity|]. cbn [map pp]. do 4 f_equal.
+    set (F := fun kv0 : bytes * tjson => spell true (fst kv0) ++ x3a :: x20 :: pp true ind (S k) (snd kv0)).
+    set (G := fun kv0 : bytes * tjson => spell false (fst kv0) ++ x3a :: x20 :: pp false ind (S k) (snd kv0)).
+    set (E := fun kv0 : bytes * tjson => (html_escape (fst kv0), escape_tree true (snd kv0))).
+    change (map F (kv :: ms) = map G (map E (kv :: ms))).
+    rewrite map_map. apply map_ext_in. intros x Hx. rewrite Forall_forall in IH. unfold F, G, E. cbn [fst snd].
+    rewrite (IH x Hx). reflexivity.
+Qed.
+
+Theorem parse_pp_esc ind k t : wsb ind = true -> twf t -> parse (pp true ind k t) = Some (escape_tree true t).
+Proof. intros W H. rewrite pp_true. apply parse_pp; [exact W | apply twf_escape, H]. Qed.
+
+(* ================= checks on concrete trees ================= *)
+Definition ex_tree : tjson :=
+  TObj [(B "a", TArr [TNum (B "1"); TNum (B "-2.5e+10"); TNum (B "0.0E7"); TStr (B "x<y&z>"); TNull; TTrue; TFalse; TArr []; TObj []]);
+        (B "k\n\\", TObj [(B "", TStr [x5c; x75; x32; x30; x32; x38; xe2; x80; xa8; xe2; x80; xe2; x80; xa9; xc3; xa9])]);
+        (B "a", TNum (B "-0"))].
+
+Example ex_tree_wf : twf ex_tree.
+Proof. apply twfb_iff. vm_compute. reflexivity. Qed.
+
+Example ex_tree_roundtrip : parse (print false ex_tree) = Some ex_tree.
+Proof. vm_compute. reflexivity. Qed.
+
+Example ex_tree_roundtrip_esc : parse (print true ex_tree) = Some (escape_tree true ex_tree).
+Proof. vm_compute. reflexivity. Qed.
+
+Example ex_tree_pp : parse (pp false (B "  ") 0 ex_tree) = Some ex_tree.
+Proof. vm_compute. reflexivity. Qed.
+
+Example ex_tree_pp_tab : parse (pp true [x09] 3 ex_tree) = Some (escape_tree true ex_tree).
+Proof. vm_compute. reflexivity. Qed.
+
+(* an indentation that is not white space is not read back *)
+Example ex_pp_bad_indent : parse (pp false (B "x") 0 ex_tree) = None.
+Proof. vm_compute. reflexivity. Qed.
+
+Example ex_tree_esc_differs : print true ex_tree <> print false ex_tree.
+Proof. vm_compute. discriminate. Qed.
+
+(* the hypotheses are needed: ill-formed literals or bodies are not read back *)
+Example ex_bad_num : parse (print false (TNum (B "01"))) = None.
+Proof. vm_compute. reflexivity. Qed.
+Example ex_bad_num2 : parse (print false (TNum (B "1 "))) = Some (TNum (B "1")).
+Proof. vm_compute. reflexivity. Qed.
+Example ex_bad_str : parse (print false (TStr [x22])) = None.
+Proof. vm_compute. reflexivity. Qed.
+Example ex_bad_str2 : parse (print false (TArr [TStr (B "a"",""b")])) = Some (TArr [TStr (B "a"); TStr (B "b")]).
+Proof. vm_compute. reflexivity. Qed.
+
+Print Assumptions parse_print.
+Print Assumptions parse_print_ws.
+Print Assumptions parse_print_esc.
+Print Assumptions parse_print_den.
+Print Assumptions parse_twf.
+Print Assumptions parse_print_parse.
+Print Assumptions parse_print_parse_esc.
+Print Assumptions parse_pp.
+Print Assumptions parse_pp_esc.
+Print Assumptions body_ok_sbody.
+Print Assumptions scan_string_sbody.
+Print Assumptions num_okb_iff.
